@@ -997,4 +997,119 @@ pub(crate) mod kani_verif {
         let res = encode_checked::<Serial, 21>(&value, 20);
         assert!(same_at_any_index(&res.into_array(), &array, 20));
     }
+
+    //------------ BudgetRead ------------------------------------------------
+
+    /// Like [`GuardedRead`] but refuses, with an error, every read request
+    /// made once `cut_at` bytes have been consumed, after having checked
+    /// the allocation budget of that request.
+    ///
+    /// With `cut_at` set to the size of a length field, a decoder is run
+    /// for every value of that field up to and including the moment it
+    /// asks for the payload: what it allocated for the payload is subject
+    /// to the budget, what it would do with the payload is cut off (CBMC
+    /// does not finish on buffers of symbolic size).
+    pub struct BudgetRead<'a> {
+        data: &'a [u8],
+        pos: usize,
+        cut_at: usize,
+    }
+
+    impl<'a> BudgetRead<'a> {
+        pub fn new(data: &'a [u8], cut_at: usize) -> Self {
+            BudgetRead { data, pos: 0, cut_at }
+        }
+    }
+
+    impl io::Read for BudgetRead<'_> {
+        fn read(&mut self, buf: &mut [u8]) -> Result<usize, io::Error> {
+            let left = self.data.len() - self.pos;
+            // C27 allocation budget.
+            assert!(
+                buf.len() <= left + SLACK,
+                "C27 allocation budget: buffer exceeds remaining input \
+                 by more than 64 KiB"
+            );
+            if self.pos >= self.cut_at {
+                return Err(io::Error::from(io::ErrorKind::Unsupported))
+            }
+            let n = cmp::min(buf.len(), left);
+            buf[..n].copy_from_slice(&self.data[self.pos..self.pos + n]);
+            self.pos += n;
+            Ok(n)
+        }
+    }
+
+    //------------ Length-prefixed types: any length field -------------------
+    //
+    // Every value of the length field, every input of up to 13 (17) bytes:
+    // no panic and no buffer beyond the allocation budget up to the point
+    // where the decoder asks the reader for the payload.
+
+    #[kani::proof]
+    #[kani::unwind(3)]
+    #[kani::stub(alloc::fmt::format, no_format)]
+    #[kani::stub(<bytes::Bytes as std::ops::Drop>::drop, bytes_no_drop)]
+    fn decode_rsync_uri_any_length_field() {
+        let mut buf = [0u8; 17];
+        let data = any_input(&mut buf);
+        kani::cover!(data.len() == 17 && first_u32(data) == u32::MAX);
+        kani::cover!(data.len() == 17 && first_u32(data) == 0x0001_000e);
+        kani::cover!(data.len() == 17 && first_u32(data) == 13);
+        let mut reader = BudgetRead::new(data, 4);
+        let _ = uri::Rsync::parse(&mut reader);
+    }
+
+    #[kani::proof]
+    #[kani::unwind(3)]
+    #[kani::stub(alloc::fmt::format, no_format)]
+    #[kani::stub(<bytes::Bytes as std::ops::Drop>::drop, bytes_no_drop)]
+    fn decode_https_uri_any_length_field() {
+        let mut buf = [0u8; 17];
+        let data = any_input(&mut buf);
+        kani::cover!(data.len() == 17 && first_u32(data) == u32::MAX);
+        kani::cover!(data.len() == 17 && first_u32(data) == 13);
+        let mut reader = BudgetRead::new(data, 4);
+        let _ = uri::Https::parse(&mut reader);
+    }
+
+    #[kani::proof]
+    #[kani::unwind(3)]
+    #[kani::stub(alloc::fmt::format, no_format)]
+    #[kani::stub(<bytes::Bytes as std::ops::Drop>::drop, bytes_no_drop)]
+    fn decode_opt_https_uri_any_length_field() {
+        let mut buf = [0u8; 17];
+        let data = any_input(&mut buf);
+        kani::cover!(data.len() == 17 && first_u32(data) == u32::MAX);
+        kani::cover!(data.len() == 17 && first_u32(data) == 0);
+        let mut reader = BudgetRead::new(data, 4);
+        let _ = Option::<uri::Https>::parse(&mut reader);
+    }
+
+    #[kani::proof]
+    #[kani::unwind(3)]
+    #[kani::stub(<bytes::Bytes as std::ops::Drop>::drop, bytes_no_drop)]
+    fn decode_bytes_any_length_field() {
+        let mut buf = [0u8; 13];
+        let data = any_input(&mut buf);
+        kani::cover!(data.len() == 13 && first_u64(data) == u64::MAX);
+        kani::cover!(data.len() == 13 && first_u64(data) == 1 << 63);
+        kani::cover!(data.len() == 13 && first_u64(data) == 0x0001_0006);
+        kani::cover!(data.len() == 13 && first_u64(data) == 5);
+        let mut reader = BudgetRead::new(data, 8);
+        let _ = Bytes::parse(&mut reader);
+    }
+
+    #[kani::proof]
+    #[kani::unwind(3)]
+    #[kani::stub(<bytes::Bytes as std::ops::Drop>::drop, bytes_no_drop)]
+    fn decode_opt_bytes_any_length_field() {
+        let mut buf = [0u8; 13];
+        let data = any_input(&mut buf);
+        kani::cover!(data.len() == 13 && first_u64(data) == u64::MAX);
+        kani::cover!(data.len() == 13 && first_u64(data) == u64::MAX - 1);
+        kani::cover!(data.len() == 13 && first_u64(data) == 5);
+        let mut reader = BudgetRead::new(data, 8);
+        let _ = Option::<Bytes>::parse(&mut reader);
+    }
 }
